@@ -303,6 +303,10 @@ static void child_run (char *line, char *prog, size_t len) {
   }
 #if SEXP_USE_VERIF_HOOKS
   sexp_verif.armed = 0;
+  if ((v = opt(line, "finalgc", tmp, sizeof(tmp))) && atoi(v)) {
+    /* a last collection with the checker on: dangling references stored into live data show up here */
+    sexp_gc(ctx, NULL);
+  }
   printf("\n#!END errs=%ld allocs=%llu gcs=%llu forced=%llu check_runs=%llu check_fail=%llu sched=%llu msg=%s\n",
          nerr,
          (unsigned long long)sexp_verif.allocs, (unsigned long long)sexp_verif.gcs,
